@@ -20,6 +20,11 @@ static void dump_value(const edn_value_t* v) {
             const char* d = edn_bigint_get(v, &len, &neg, &radix);
             printf("bigint:%d:%d:", (int) neg, (int) radix);
             if (d) dump_hex(d, len); else printf("NULL");
+            {   /* the accessor is lazy (digit cleaning): a repeated call must give the same answer */
+                size_t len2 = 0; bool neg2 = false; uint8_t radix2 = 0;
+                const char* d2 = edn_bigint_get(v, &len2, &neg2, &radix2);
+                if (d2 != d || len2 != len || neg2 != neg || radix2 != radix) printf("!SECOND-CALL-DIFFERS(%zu)", len2);
+            }
             break;
         }
         case EDN_TYPE_FLOAT: {
@@ -34,6 +39,11 @@ static void dump_value(const edn_value_t* v) {
             const char* d = edn_bigdec_get(v, &len, &neg);
             printf("bigdec:%d:", (int) neg);
             if (d) dump_hex(d, len); else printf("NULL");
+            {
+                size_t len2 = 0; bool neg2 = false;
+                const char* d2 = edn_bigdec_get(v, &len2, &neg2);
+                if (d2 != d || len2 != len || neg2 != neg) printf("!SECOND-CALL-DIFFERS(%zu)", len2);
+            }
             break;
         }
 #ifdef EDN_ENABLE_CLOJURE_EXTENSION
@@ -46,6 +56,11 @@ static void dump_value(const edn_value_t* v) {
             const char *a = NULL, *b = NULL; size_t al = 0, bl = 0; bool neg = false;
             edn_bigratio_get(v, &a, &al, &neg, &b, &bl);
             printf("bigratio:%d:", (int) neg); dump_hex(a, al); printf("/"); dump_hex(b, bl);
+            {
+                const char *a2 = NULL, *b2 = NULL; size_t al2 = 0, bl2 = 0; bool neg2 = false;
+                edn_bigratio_get(v, &a2, &al2, &neg2, &b2, &bl2);
+                if (a2 != a || b2 != b || al2 != al || bl2 != bl || neg2 != neg) printf("!SECOND-CALL-DIFFERS");
+            }
             break;
         }
 #endif
@@ -153,9 +168,22 @@ static edn_value_t* h1(edn_value_t* v, edn_arena_t* a, const char** msg) {
 }
 static edn_value_t* h2(edn_value_t* v, edn_arena_t* a, const char** msg) { (void) a; log_call(2, v); *msg = "boom"; return NULL; }
 static edn_value_t* h3(edn_value_t* v, edn_arena_t* a, const char** msg) { (void) a; (void) msg; log_call(3, v); return NULL; }
+static __thread int g_misaligned = 0;   /* an arena block handed to a handler was not 8-byte aligned */
 static edn_value_t* h4(edn_value_t* v, edn_arena_t* a, const char** msg) {
     (void) msg; log_call(4, v);
-    return edn_external_create(a, (void*) (uintptr_t) 42, 7);
+    /* a handler that needs scratch memory: when the operand is an integer n in 1..2^20 it requests n bytes
+       from the arena (any size, odd ones included) and fills them, as the public API allows */
+    int64_t n = 0;
+    if (edn_type(v) == EDN_TYPE_INT && edn_int64_get(v, &n) && n >= 1 && n <= (1 << 20)) {
+        unsigned char* p = (unsigned char*) edn_arena_alloc(a, (size_t) n);
+        if (p) {
+            if (((uintptr_t) p & 7u) != 0) g_misaligned = 1;
+            memset(p, 0xAB, (size_t) n);
+        }
+    }
+    edn_value_t* r = edn_external_create(a, (void*) (uintptr_t) 42, 7);
+    if (r && ((uintptr_t) r & 7u) != 0) g_misaligned = 1;
+    return r;
 }
 static edn_value_t* h5(edn_value_t* v, edn_arena_t* a, const char** msg) {
     (void) msg; log_call(5, v);
@@ -206,6 +234,8 @@ static void print_result(edn_result_t r, const char* input, size_t n, edn_parse_
                r.error_end.offset, r.error_end.line, r.error_end.column);
     }
     print_calls();
+    if (g_misaligned) { printf(" !MISALIGNED-ARENA-BLOCK"); g_misaligned = 0; }
+    if (r.value && r.error == EDN_OK && ((uintptr_t) r.value & 7u) != 0) printf(" !MISALIGNED-VALUE");
     printf("\n");
 }
 
